@@ -213,7 +213,9 @@ def block_replay(dialect, base):
 # ---- F2: structure sweep (concrete): every production x every combination of alternatives of its first three nonterminal children
 # x a vocabulary of boundary values
 VOCAB = [dict(ints=[1, 2], ids=['ida', 'idb'], strs=['s'], fl=0, var=0), dict(ints=[0, 0], ids=['`q r`', 'tables'], strs=[''], fl=1, var=1),
-         dict(ints=[2 ** 63, 7], ids=['ALL', 'x'], strs=['a.b'], fl=3, var=0)]
+         dict(ints=[2 ** 63, 7], ids=['ALL', 'x'], strs=['a.b'], fl=3, var=0),
+         # coinciding names: every identifier of the statement is the same name (the pool default is id1), spelled in different letter case
+         dict(ints=[3, 3], ids=['Id1', 'ID1'], strs=['id1'], fl=0, var=0)]
 
 
 def run_node(dialect, tree, v, digits='3'):
@@ -250,11 +252,11 @@ def pair_sweep(dialect, lo, hi):
     n, bad = 0, []
     for i in range(lo, min(hi, len(d.prods))):
         for j, cp, tree in d.pair_trees(d.prods[i]):
-            for vi in (0, 1):
-                out, detail = run_node(dialect, tree, VOCAB[vi], ('3', '0')[vi])
+            for vi in (0, 1, 3):
+                out, detail = run_node(dialect, tree, VOCAB[vi], ('3', '0', '3', '3')[vi])
                 n += 1
                 if out == 'internal':
-                    bad.append((i, j, str(cp).split('  [')[0], vi, detail, node_sentence(dialect, tree, VOCAB[vi], ('3', '0')[vi])))
+                    bad.append((i, j, str(cp).split('  [')[0], vi, detail, node_sentence(dialect, tree, VOCAB[vi], ('3', '0', '3', '3')[vi])))
     return n, bad
 
 
@@ -267,7 +269,7 @@ def sweep(dialect, lo, hi):
         na = d.n_alternatives(d.prods[i])[:3]
         for picks in itertools.product(*[range(x) for x in na]):
             for vi, v in enumerate(VOCAB):
-                out, detail = run_tree(dialect, i, list(picks), list(v['ints']), list(v['ids']), list(v['strs']), v['fl'], v['var'], digits=('3', '0', '99999999999999999999')[vi])
+                out, detail = run_tree(dialect, i, list(picks), list(v['ints']), list(v['ids']), list(v['strs']), v['fl'], v['var'], digits=('3', '0', '99999999999999999999', '3')[vi])
                 n += 1
                 if out == 'internal':
                     bad.append((i, list(picks), vi, detail))
